@@ -45,8 +45,49 @@ def structural_mutants(hs: str, rng, dense: bool):
         out.add("$".join(p2))
         out.add("$".join(parts[:-2] + [parts[-1], parts[-2]]))       # reordered fields
     out |= {hs.swapcase(), hs.upper(), hs.lower(), hs + hs, "", " ", "\x00", "x", "$", "$$$", hs.replace("$", ""), hs.replace("$", "$$")}
+    out |= field_mutants(hs, rng, dense)
     out.discard(hs)
     return sorted(out)
+
+
+def field_mutants(hs: str, rng, dense: bool):
+    """alterations of whole fields: every order of a comma-separated settings list, and other values of the numeric fields (every value of a
+    one- or two-digit field that starts a field; neighbours, doubles and boundary-looking values of longer ones)"""
+    import itertools
+    import re
+
+    out = set()
+    for m in re.finditer(r"[^$]*,[^$]*", hs):
+        items = m.group(0).split(",")
+        perms = list(itertools.permutations(items))
+        if len(perms) > 24:
+            perms = rng.sample(perms, 24)
+        for pm in perms:
+            out.add(hs[:m.start()] + ",".join(pm) + hs[m.end():])
+        out.add(hs[:m.start()] + ",".join(items + items[:1]) + hs[m.end():])      # a setting given twice
+    runs = list(re.finditer(r"\d+", hs))
+    for k, m in enumerate(runs):
+        at_field_start = m.start() == 0 or hs[m.start() - 1] in "$,=:}_"
+        txt = m.group(0)
+        w, n = len(txt), int(txt)
+        if at_field_start and w <= 2:
+            # every small value and the boundary-looking ones; not the values in between: where the field is a log2 cost (bcrypt: up to 31)
+            # those are valid and take hours to verify
+            vals = set(range(0, min(10 ** w, n + 4))) | ({50, 51, 52, 53, 54, 55, 63, 64, 65, 98, 99} if w == 2 else set())
+        elif at_field_start or k < 4:
+            vals = {n + 1, max(n - 1, 0), n * 2, n + 53, n + 64, n + 256, n ^ 1, 0}
+        else:
+            continue
+        for v in vals:
+            out.add(hs[:m.start()] + str(v).zfill(w) + hs[m.end():])
+            if dense or w <= 2:
+                out.add(hs[:m.start()] + str(v) + hs[m.end():])
+    # a fixed-width numeric prefix glued to what follows (cisco_type7: two salt digits + hex): the first two digits of a field as a field
+    for m in re.finditer(r"(?:^|(?<=[$,=:}_]))\d\d(?=[0-9A-Za-z])", hs):
+        n = int(m.group(0))
+        for v in set(range(0, min(100, n + 4))) | {50, 51, 52, 53, 54, 55, 63, 64, 65, 98, 99}:
+            out.add(hs[:m.start()] + str(v).zfill(2) + hs[m.end():])
+    return out
 
 
 def same_parse(h, a, b):
@@ -100,6 +141,9 @@ def lp_same(hh, a, b):
 
 
 def oracle(ctx, o, first_only=False):
+    import logging
+
+    logging.disable(logging.WARNING)
     warnings.simplefilter("ignore")
     from passlib.context import CryptContext
 
@@ -115,9 +159,22 @@ def oracle(ctx, o, first_only=False):
     names = vc.all_names()
     ctx_all = CryptContext([n for n in names if n not in ("plaintext", "ldap_plaintext", "roundup_plaintext", "unix_disabled", "django_disabled", "htdigest", "cisco_type7")
                             and not vc.ctx_kwds(vc.handler(n))] + ["unix_disabled"])
-    for name in names:
+    # boundary settings besides a random cheap one: the smallest and largest value of a small numeric field (cisco_type7's salt)
+    todo = [(n, None) for n in names] + [("cisco_type7", {"salt": 0}), ("cisco_type7", {"salt": 52})]
+    # ... and every ident / variant a hasher can write (the layouts differ: scrypt's $7$ and $scrypt$ forms, bcrypt's $2$..$2y$, fshp's variants)
+    for n in names:
+        hn = vc.handler(n)
+        sk = hn.setting_kwds or ()
+        base = vc.cheap_settings(hn, rng)
+        if "ident" in sk and "ident" in base:
+            for iv in getattr(getattr(hn, "wrapped", hn), "ident_values", None) or ():
+                if "2x" not in iv and iv != base.get("ident"):
+                    todo.append((n, dict(base, ident=iv)))
+        if n == "fshp":
+            todo += [(n, dict(base, variant=v)) for v in (0, 1, 2, 3) if v != base.get("variant")]
+    for name, forced in todo:
         h = vc.handler(name)
-        hh = vc.using(h, vc.cheap_settings(h, rng))
+        hh = vc.using(h, forced if forced is not None else vc.cheap_settings(h, rng))
         ck = vc.ctx_kwds(h)
         secret = b"password"
         try:
@@ -131,7 +188,13 @@ def oracle(ctx, o, first_only=False):
             muts = rng.sample(muts, min(len(muts), 60 if not ctx.thorough else 400))
         elif ctx.thorough and len(muts) > 500:
             muts = rng.sample(muts, 500)
-        muts = sorted(set(muts) | {m for m in always if m != hs})
+        fm = sorted(field_mutants(hs, rng, ctx.thorough) - {hs})
+        if slow and len(fm) > 80:
+            # keep every reordering of a settings list (same characters as the original, another order); sample the numeric alterations
+            perms = [m for m in fm if sorted(m) == sorted(hs)]
+            rest = [m for m in fm if sorted(m) != sorted(hs)]
+            fm = perms + rng.sample(rest, min(len(rest), 70))
+        muts = sorted(set(muts) | {m for m in always if m != hs} | set(fm))
         for m in muts:
             for form in ((m, m.encode("utf-8", "surrogatepass")) if rng.random() < 0.2 else (m,)):
                 inp = {"op": "mutant", "hasher": name, "original": hs, "mutant": form if isinstance(form, str) else form.hex(), "bytes": isinstance(form, bytes)}
@@ -151,8 +214,9 @@ def oracle(ctx, o, first_only=False):
             if fails and first_only:
                 return fails
         # through a context
-        for m in rng.sample(muts, min(len(muts), 25 if not ctx.thorough else 200)) + [hs]:
-            inp = {"op": "context-mutant", "hasher": name, "mutant": m}
+        raw = [hs.encode() + b"\xff", b"\xff" + hs.encode(), hs.encode()[: len(hs) // 2] + b"\xe9" + hs.encode()[len(hs) // 2:], b"\xff", b"\xc3", hs.encode("utf-16")]
+        for m in rng.sample(muts, min(len(muts), 25 if not ctx.thorough else 200)) + [hs] + raw:
+            inp = {"op": "context-mutant", "hasher": name, "mutant": m if isinstance(m, str) else m.hex(), "bytes": isinstance(m, bytes)}
             if ck:
                 continue
             st, r = vc.safe_call(lambda: ctx_all.identify(m))
@@ -258,6 +322,14 @@ def replay(ctx, inp):
         hs = mssql2000.hash("Password")
         alt = hs[:14] + ("0" if hs[14] != "0" else "1") + hs[15:]
         return {"fails": mssql2000.verify("Password", alt) is True, "observed": {"original": hs, "altered": alt, "verify": mssql2000.verify("Password", alt)}}
+    if op == "libpass-version":
+        from libpass.hashers.bcrypt import BcryptSHA256Hasher
+
+        hh = BcryptSHA256Hasher(rounds=4)
+        hs = hh.hash("password")
+        alt = hs.replace("v=2,", f"v={inp.get('version', 0)},", 1)
+        obs = {"identify": hh.identify(alt), "verify": hh.verify(alt, "password"), "needs_update": hh.needs_update(alt)}
+        return {"fails": obs["verify"] is True or obs["identify"] is True, "observed": dict(obs, altered=alt)}
     if op == "mutant":
         h = vc.handler(inp["hasher"])
         m = inp["mutant"]
